@@ -158,7 +158,11 @@ class Model:
             k = ev['k']
             f = getattr(self, 'ev_' + k, None)
             if f is not None:
-                f(ev)
+                try:
+                    f(ev)
+                except (KeyError, IndexError, TypeError):
+                    # a log line cut short by the death of the simulated process
+                    self.stat('malformed-event')
         return self.viol
 
     def ev_H(self, ev):
